@@ -108,6 +108,7 @@ theorem mem_len1 {l : List Nat} {a b : Nat} (h : l.length = 1) (ha : a ∈ l) (h
   match l, h with
   | [x], _ => simp at ha hb; rw [ha, hb]
 
+set_option linter.unusedSimpArgs false in
 theorem pinv_init (cap : Nat) : PInv (init cap) := by
   constructor <;> intros <;> simp_all [init, List.nodup_range] <;> (try simp_all [spinNode, refNode, opNode])
 
@@ -168,7 +169,7 @@ theorem pinv_step_lkWait {s s' : St} {t : Tid} {ev : Ev} {n k : Nat}
     (h : PInv s) (hpc : s.pc t = .lkWait n k) (hs : step s t = some (s', ev)) : PInv s' := by
   simp only [step, hpc] at hs
   simp at hs; obtain ⟨rfl, -⟩ := hs
-  by_cases hh : s.lheld k = true <;> simp only [hh, if_true, if_false] <;> pinv_all h
+  by_cases hh : s.lheld k = true <;> simp only [hh] <;> pinv_all h
 
 set_option maxHeartbeats 1000000 in
 theorem pinv_step_unLd {s s' : St} {t : Tid} {ev : Ev} {n : Nat}
